@@ -11,6 +11,19 @@ def key(ev):
     return None
 
 
+def interleavings(run):
+    """All interleavings of two readers' deliveries, from the specification (shared with C11)."""
+    r = vlib.tlc("Interleave", "Interleave_private.cfg", heap="1g", workers=1)
+    if r.violated or not r.printed:
+        raise vlib.Infra("Interleave (private staging) violates %s" % r.violated)
+    run.add_tlc("Interleave/private (2 readers x 4 deliveries, all interleavings; Isolation holds)", r)
+    r2 = vlib.tlc("Interleave", "Interleave_shared.cfg", heap="1g", workers=1)
+    if r2.violated != "Isolation":
+        raise vlib.Infra("Interleave (shared staging) was not refuted: the model cannot see the defect it is for")
+    run.add_tlc("Interleave/shared (expected counterexample)", r2)
+    return r.printed
+
+
 def check(pid, tier, args):
     run = vlib.Run(pid, tier)
     drive = vlib.go_build("cmd/drive")
@@ -23,6 +36,21 @@ def check(pid, tier, args):
     out = os.path.join(vlib.scratch(), "c16")
     os.makedirs(out, exist_ok=True)
     vlib.run([drive, "icchdr", "-out", out, "-tier", tier, "-seed", str(vlib.seed())])
+    # 2b. two readers at once: every interleaving of their sources' deliveries (Interleave.tla),
+    # forced on the real reader with gated sources; each header still decodes to its own fields
+    scheds = interleavings(run)
+    sp = os.path.join(out, "scheds.ndjson")
+    with open(sp, "w") as f:
+        for k in range(1 if tier == "quick" else 6):
+            for sc in scheds:
+                f.write(json.dumps(sc) + "\n")
+    p = vlib.run([drive, "interleave", "-what", "icc", "-scheds", sp, "-out", out, "-seed", str(vlib.seed())], timeout=1800)
+    st = json.loads(p.stdout.strip().splitlines()[-1])
+    if st["followed"] * 2 < st["schedules"]:
+        raise vlib.Infra("only %d of %d interleavings could be forced on the real reader" % (st["followed"], st["schedules"]))
+    run.cov["forced_interleavings"] = st
+    with open(os.path.join(out, "c16.ndjson"), "a") as f:
+        f.write(open(os.path.join(out, "c16i.ndjson")).read())
     results, rejects, lines = vlib.validate_trace("TraceIccHeader", "TraceIccHeader.cfg",
                                                   os.path.join(out, "c16.ndjson"), shards=8, heap="3g")
     for res in results:
@@ -44,13 +72,13 @@ def check(pid, tier, args):
             what = "Version{%d,%d}.String() = %s" % (ev["major"], ev["minor"], ev["str"])
         else:
             cls = "hdr"
-            what = "header %s -> ok=%s obs=%s date=%s" % (
-                bytes(ev["hdr"]).hex(), ev["ok"], json.dumps(ev["obs"]), ev["date"])
+            what = "header %s read through %s -> ok=%s obs=%s date=%s unix=%s" % (
+                bytes(ev["hdr"]).hex(), ev.get("reader"), ev["ok"], json.dumps(ev["obs"]), ev["date"], ev.get("unix"))
         if (cls in seen and len(run.violations) >= 6) or len(run.violations) >= 12:
             continue
         seen.add(cls)
         run.violation({"finding_key": None, "event": ev}, what[:600])
     if rejects:
         run.cov["rejected_events"] = len(rejects)
-    run.assumptions.append("dates are compared only when all six components are valid (the property's domain)")
+    run.assumptions.append("creation time: component-wise for valid dates; for every bit pattern as the instant time.Date's carrying rules give (spec: UnixOf)")
     return run.finish()
